@@ -27,6 +27,8 @@ Mechanical edits applied to extracted text (and nothing else; all are logged):
      header restates the SAME parameter names with their types, names the result and gives the closure's `ensures`
      (Verus infers no specification for a closure).  The closure's body text is untouched; a closure whose parameter
      names differ from the template's, or a different number of such closures, makes the unit UNDECIDED.
+  D5 (opt-in, `anonparams=name`) parameters written `_: T` in the signature (the verus! macro wants identifiers) are
+     named `_p0`, `_p1`, ..; the body cannot mention them, so nothing else changes
   I1 the unit's contract block is inserted between signature and body
   I2 the result type `-> T` is rewritten to `-> (r: T)` so the contract can name it
   I3 loop invariants (`loopinv=` labels) are inserted between a loop header and its body;
@@ -545,6 +547,17 @@ def assemble(repo_dir: str, unit: dict, out_path: str):
             text = _drop_docs_and_attrs(text, dropped)
             text = _drop_tracing(text, dropped)
             text = _normalize_vis(text, dropped)
+            if kv.get("anonparams") == "name":
+                brace = text.index("{")
+                cnt = [0]
+                def _nm(m):
+                    cnt[0] += 1
+                    return "%s_p%d:" % (m.group(1), cnt[0] - 1)
+                sig = re.sub(r"([(,]\s*)_\s*:", _nm, text[:brace])
+                if cnt[0] == 0:
+                    raise Unsupported("anonparams=name: the signature has no `_` parameter any more (template out of date)")
+                dropped.append("D5: %d anonymous parameter(s) `_` named _p0.." % cnt[0])
+                text = sig + text[brace:]
             if kv.get("refpat") == "deref":
                 text = _deref_ref_patterns(text, dropped)
             if kv.get("vis") == "drop":
